@@ -914,7 +914,7 @@ class Executor:
                 if ext is not None:
                     return VFunc("virtual", attr, self_val=a, spec=ext)
                 raise Unsupported("attribute %s not declared in shape %s" % (attr, o.shape))
-            if o.kind == "exc":
+            if o.kind == "exc" or self.spec_mode:
                 self.raise_if(state, z3.BoolVal(True), "AttributeError")
             raise Unsupported("attribute %s on object %r" % (attr, o.cls))
         if isinstance(a, VSym):
@@ -1268,6 +1268,8 @@ class Executor:
             o = self.obj(state, kv)
             if o.kind == "dict" and o.d is not None:
                 return dict(o.d)
+            if o.kind == "dict" and o.sym is not None:
+                return {"**": kv}
         if isinstance(kv, (VDyn, VOpaque)):
             return {"**": kv}
         raise Unsupported("** of %r" % (kv,))
